@@ -81,12 +81,13 @@ def check(case, stats):
         if ob["snapshot"]["done"]:
             break
         ea = eb = None
+        half = toy and case.get("toy_half")          # TOY: every half-cycle is a step the user can inspect after
         try:
-            ra = a.step()
+            ra = a.single_step() if half else a.step()
         except InstructionExecutionException as ex:
             ea = ex
         try:
-            rb = b.step()
+            rb = b.single_step() if half else b.step()
         except InstructionExecutionException as ex:
             eb = ex
         n += 1
@@ -127,11 +128,20 @@ def case_strategy(draw):
     if kind == "toy":
         c = draw(c06.program_case())
         c["via_text"] = False
-        return dict(c, sim={"kind": "toy"}, sched=sched, max=60)
+        half = draw(st.booleans())
+        return dict(c, sim={"kind": "toy"}, sched=sched, max=120 if half else 60, toy_half=half)
     multiway = st.builds(lambda c, w: dict(c, ways=w), cachecfg.cache_config(max_idx=1, max_blk=1, max_ways=2), st.sampled_from([2, 4]))
     dc = draw(cachecfg.maybe(st.one_of(cachecfg.small_cache_config(), multiway, multiway, cachecfg.cache_config())))
     ic = draw(cachecfg.maybe(cachecfg.small_cache_config()))
     prog = draw(rvprog.mem_heavy_case(16) if dc else st.one_of(rvprog.program_case(12), rvprog.mem_heavy_case(14)))
+    if kind == "single" and draw(st.booleans()):
+        # single-cycle mode also executes CSR instructions (not visualised): sprinkle a few in
+        prog = dict(prog, prog=list(prog["prog"]))
+        for _ in range(draw(st.integers(1, 3))):
+            op = draw(st.sampled_from(["csrrw", "csrrs", "csrrc", "csrrwi", "csrrsi", "csrrci"]))
+            csr = draw(st.sampled_from([0x000, 0x001, 0x040, 0x0FF, 0x100, 0x300, 0x340, 0xC00, 0xFFF, 0x7FF]))
+            third = draw(st.integers(0, 31))
+            prog["prog"].insert(draw(st.integers(0, len(prog["prog"]))), [op, draw(st.sampled_from([0, 1, 2, 5])), csr, third])
     return dict(prog, sim={"kind": kind, "dcache": dc, "icache": ic}, sched=sched, max=120)
 
 
@@ -142,6 +152,9 @@ def corpus():
          "prog": [["sw", 8, 1, 0], ["sw", 8, 1, 4], ["lw", 2, 8, 0], ["sw", 8, 2, 8], ["lw", 3, 8, 4], ["lw", 3, 8, 0], ["beq", 0, 0, -24]],
          "regs": {"8": B, "1": 7}, "mem": {}, "sched": [[0, 1, 2, 3, 4, 5, 6, 7, 8, 9, 10, 11, 12], [1, 1, 1], [3, 5, 4, 6]], "max": 60},
         dict(c06.corpus()[0], sim={"kind": "toy"}, sched=[[0, 1, 2, 3, 4, 5], [1, 1]], max=30),
+        dict(c06.corpus()[0], sim={"kind": "toy"}, sched=[[1], [1, 2], [0]], max=40, toy_half=True),
+        {"sim": {"kind": "single", "dcache": None, "icache": None}, "prog": [["addi", 1, 0, 5], ["csrrw", 2, 0, 1], ["addi", 3, 0, 1], ["csrrs", 2, 0, 0]],
+         "regs": {}, "mem": {}, "sched": [[7], [7, 7], [7]], "max": 20},
     ]
 
 
